@@ -99,8 +99,22 @@ func (g *Gen) Case(i int) Case {
 	if r.Below(5) == 0 { // a fifth of the cases are fault-free so deep results are seen too
 		rates.Err, rates.Nil, rates.Panic, rates.DirErr, rates.DirBlock, rates.ElemNil = 0, 0, 0, 0, 0, 0
 	}
+	around := false
+	switch g.profile {
+	case "c01", "c04", "c06", "sub":
+		// a third of the cases run with a field interceptor installed (it mostly passes; it may fail like a directive)
+		if r.Below(3) == 0 {
+			around = true
+			if rates.Err > 0 {
+				rates.AroundErr, rates.AroundBlock = 25, 15
+				if g.profile == "c04" || g.profile == "sub" {
+					rates.AroundPanic = 15
+				}
+			}
+		}
+	}
 	return Case{ID: fmt.Sprintf("%s-%d-%d", g.profile, g.seed, i), Query: q, OperationName: "", Variables: vals,
-		Plan: Plan{Seed: g.seed*31 + uint64(i), Rates: rates}}
+		Plan: Plan{Seed: g.seed*31 + uint64(i), Rates: rates}, Around: around}
 }
 
 func (b *docBuilder) dirs() string {
